@@ -28,7 +28,9 @@ def dense(b, shape):
     return np.asarray(b, dtype=complex).reshape(shape)
 
 def gen(rnd):
-    atol = rnd.choice([1e-3, 2.0 ** -10, 1e-6, 1e-12])
+    # (selection given by the caller as masks: a chain's ends are then eliminated, dividing by little more than atol — a tolerance of 0.1 keeps that benign)
+    as_masks = rnd.random() < 0.25
+    atol = rnd.choice([1e-3, 2.0 ** -10, 1e-6, 1e-12]) if not as_masks else 0.1
     N = rnd.choice([1, 1, 2, 2, 3]); k = rnd.choice([1, 1, 2])
     sizes = []; levels = []; groups = []; base = 0.0
     for b in range(N):
@@ -51,7 +53,8 @@ def gen(rnd):
     d = len(levels)
     fd = tuple(sorted(set(b for b, _, _ in groups) | set(b for b in range(N) if rnd.random() < 0.3))) if N > 1 else rnd.choice([(0,), None])
     carrier = rnd.choice(["dense", "sparse"])
-    return dict(atol=atol, N=N, k=k, sizes=sizes, levels=levels, groups=groups, fd=fd, carrier=carrier, cplx=rnd.random() < 0.5, np_seed=rnd.randrange(2**31))
+    if as_masks and fd is None: fd = (0,)
+    return dict(as_masks=as_masks, atol=atol, N=N, k=k, sizes=sizes, levels=levels, groups=groups, fd=fd, carrier=carrier, cplx=rnd.random() < 0.5, np_seed=rnd.randrange(2**31))
 
 def main(seed, ncases, driver, out, prop=None):
     """`prop`: report only the identities of that property (C01, C02 or C04); all of them when it is not given"""
@@ -81,6 +84,11 @@ def main(seed, ncases, driver, out, prop=None):
         close = (np.abs(E.reshape(-1, 1) - E) <= atol) & (blocks.reshape(-1, 1) == blocks)
         _, lab = sparse.csgraph.connected_components(close, directed=False)
         kept = np.array([[blocks[a] == blocks[b] and (blocks[a] not in fdset or lab[a] == lab[b]) for b in range(d)] for a in range(d)])
+        if P["as_masks"]:
+            off = np.concatenate([[0], np.cumsum(sizes)])
+            kw["fully_diagonalize"] = {b: ~close[off[b]:off[b + 1], off[b]:off[b + 1]] for b in P["fd"]}
+            kept = np.array([[blocks[a] == blocks[b] and (blocks[a] not in fdset or close[a, b]) for b in range(d)] for a in range(d)])
+            dist["selection given as masks"] = dist.get("selection given as masks", 0) + 1
         maxo = 3 if k == 1 else 2
         orders = [n for n in itertools.product(range(maxo + 1), repeat=k) if sum(n) <= maxo]
         try:
